@@ -114,24 +114,40 @@ runs:
   had before are repaired and deleted: `$ x` / `> ` (the command `x⏎`) was written back as `$ x` (finding
   `C10:trailing-empty-continuation-dropped`, fix 961e96b, regression `C10_run_trailing_continuation_kept`) and
   the one of the previous item.
-  `C10_run_same_commands_partial` proves the statement under the decidable guards `NoStrayCR`,
-  `FrontClosed` alone (the guards `CmdClosed`, `NoContLike` it had are dropped: EVERY command, also one ending
-  in an empty continuation line, and EVERY expectation line, also `> x`), for any `isOther` with
-  `AsciiContract` (C11), IF the written document parses.  Underneath: `C10_expression_roundtrip` (the lines
+  `C10_run_same_commands_partial` proves the statement under the decidable guard `NoStrayCR` alone
+  (the guards `CmdClosed`, `NoContLike` it had are dropped: EVERY command, also one ending
+  in an empty continuation line, and EVERY expectation line, also `> x`; the guard `FrontClosed` is dropped:
+  a document that `update` writes has a test, and behind an unterminated front-matter there is none --
+  `C10_run_front_closed`), for any `isOther` with
+  `AsciiContract` (C11), IF the written document parses (it does under the guards of U4:
+  `C10_run_written_parses_partial`).  Underneath: `C10_expression_roundtrip` (the lines
   written for ANY command text are read back by the line parser as that command) and
   `C10_written_block_command` (whatever is written behind them, no line of it is taken for a continuation);
 * **idempotence** – `C10_run_idempotent_same_texts_partial`: the second update writes nothing if
   it generates the same texts; `C10_run_idempotent_partial`: it does so – hence
-  `update (update doc) = unchanged` – under the guards `NoStrayCR`, `FrontClosed`, exit codes 0..255, `QuantFree` (a test
+  `update (update doc) = unchanged` – under the decidable guards `NoStrayCR`, exit codes 0..255, `QuantFree` (a test
   with `MalformedOutput` has no quantified expectation: the open finding
-  `C10:not-idempotent-retained-quantified-expectations`) and ONE hypothesis that is not discharged,
-  `SameConfigs`: the written document is read (it parses, its lines compile) with the same test
-  configurations.  Missing for it: the tokens' `Reread` only says that the configuration is WRITTEN
-  the same way again (`configSuffix cfg' = configSuffix cfg`), not that the text between the braces
-  read back is the original one without its leading white space, and no lemma says that
-  `Yaml.parseFlow` ignores leading white space.  Everything else of the round trip through the
-  document parser is proved (`UpdateRun.reparse_block`: command, expectation lines, exit code of the
-  block read back; C09's `C09_run_rewritten_passes`: the test read back passes on the same run).
+  `C10:not-idempotent-retained-quantified-expectations`) and `CfgBlankLed` (below).  No hypothesis about the
+  WRITTEN document is left: the former hypothesis `SameConfigs` ("the written document is read -- it parses,
+  its lines compile -- with the same test configurations") is discharged:
+  - the written document parses (`C10_run_written_parses_partial`: tokens as in `Reread`, every rewritten block is
+    the command lines, expectation lines that compile, at most one exit code line);
+  - the tokenizer reads from the fence line `update` wrote exactly the configuration text `update` wrote
+    (`writtenCfg`: the original text without its leading white space, none if it was white space only:
+    `C10_config_text_read_back`), and `Yaml.parseFlow` does not see spaces and tabs behind the opening brace
+    (`C10_flow_blanks_skipped`, for ALL texts, proved through the fuel of the flow parser);
+  - the guard `FrontClosed` follows from `… = .updated …` (`C10_run_front_closed`).
+  The statement WITHOUT `CfgBlankLed`
+
+      theorem C10_run_idempotent (… NoStrayCR, codes, QuantFree …) : ∃ rs, updateDocument isOther text runs = .unchanged rs
+
+  is **false** (`C10_run_idempotent_configs_fail_on_witness`, finding
+  `C10:config-leading-white-space-changes-configuration`, confirmed on the binary): `update` drops the white
+  space in front of the configuration text with `trim_start()` -- Unicode `White_Space` --, YAML skips spaces
+  and tabs only.  `{<U+00A0>output_stream: stderr}` holds the unknown key `<U+00A0>output_stream` (ignored: the
+  test validates STDOUT); it is written back as `{output_stream: stderr}`: the PASSING test `$ echo a; echo b >&2`
+  / `a` fails after the first update and is rewritten to `b` by the second.  `CfgBlankLed`: the white space
+  dropped in front of every inline configuration is spaces and tabs.
 -/
 namespace Scrut.Props.C10
 open Scrut Scrut.Markdown Scrut.Update
@@ -408,7 +424,18 @@ theorem C10_run_outside_preserved (isOther : Char → Bool) (content : List Char
       Rewritten [Gen.language] gens false 0 (splitLines content) text :=
   run_outside_preserved h
 
-/-- The strict reading for documents whose front-matter is closed. -/
+/-- A document that `update` writes has no unterminated front-matter: the front-matter is recognised only in
+front of the first content and an unterminated one extends to the end of the document, so there is no test
+behind it and the document is skipped ("no testcases").  The open finding
+`C10:front-matter-unterminated-gains-delimiter` is about `generate_update` as a library function; the command
+`scrut update` cannot reach it.  The guard `FrontClosed` of the theorems below is therefore dropped. -/
+theorem C10_run_front_closed (isOther : Char → Bool) (content : List Char) (runs : List TestRun.Ran)
+    (text : List Char) (results : List Gen.UpdResult)
+    (h : updateDocument isOther content runs = .updated text results) : FrontClosed content :=
+  frontClosed_of_updated h
+
+/-- The strict reading for documents whose front-matter is closed (every document that is written:
+`C10_run_front_closed`). -/
 theorem C10_run_outside_preserved_partial (isOther : Char → Bool) (content : List Char) (runs : List TestRun.Ran)
     (text : List Char) (results : List Gen.UpdResult)
     (h : updateDocument isOther content runs = .updated text results) (hf : FrontClosed content) :
@@ -423,9 +450,9 @@ discharged. -/
 theorem C10_run_same_tokens (isOther : Char → Bool) (content : List Char) (runs : List TestRun.Ran)
     (text : List Char) (results : List Gen.UpdResult)
     (h : updateDocument isOther content runs = .updated text results)
-    (hcr : NoStrayCR content) (hf : FrontClosed content) :
+    (hcr : NoStrayCR content) :
     ∃ gens, docGens isOther content runs = some gens ∧ Reread gens 0 (docToks content) (docToks text) :=
-  run_reread h hcr hf
+  run_reread h hcr (frontClosed_of_updated h)
 
 /-! ### U3: same commands
 
@@ -457,28 +484,28 @@ theorem C10_run_trailing_continuation_kept :
 
 /-- **Same commands, at the level of the parser**: if the written document parses, it parses to
 the same command lines (hence the same shell expressions), test by test – for documents without
-stray carriage return and with closed front-matter; every command (also the empty continuation line at its
+stray carriage return; every command (also the empty continuation line at its
 end), every expectation line (also `> x`).  Missing for the full statement: the guard `NoStrayCR` cannot be
-dropped (`C10_run_same_commands_fails_on_witness`); `FrontClosed` is needed by the proof only (behind an
-unterminated front-matter there is no test). -/
+dropped (`C10_run_same_commands_fails_on_witness`).  (The guard `FrontClosed` it had is dropped:
+`C10_run_front_closed`.) -/
 theorem C10_run_same_commands_partial (isOther : Char → Bool) (hC : AsciiContract isOther) (content : List Char)
     (runs : List TestRun.Ran) (text : List Char) (results : List Gen.UpdResult)
     (h : updateDocument isOther content runs = .updated text results)
-    (hcr : NoStrayCR content) (hf : FrontClosed content) (p p' : Parsed)
+    (hcr : NoStrayCR content) (p p' : Parsed)
     (hp : parseMarkdown TestRun.parseEnv content = .ok p) (hp' : parseMarkdown TestRun.parseEnv text = .ok p') :
     p'.tests.map (·.command) = p.tests.map (·.command) :=
-  run_same_commands_parsed hC h hcr hf hp hp'
+  run_same_commands_final hC h hcr hp hp'
 
 /-- the guards hold for an ordinary document (title, blank line, one block, text behind it), whose
 written form parses -/
 example : updateDocument ctrl docOrd [runNew] = .updated docOrdOut [.malformed [.unmatched 0, .unexpected [0]]] ∧
-    AsciiContract ctrl ∧ NoStrayCR docOrd ∧ FrontClosed docOrd ∧
+    AsciiContract ctrl ∧ NoStrayCR docOrd ∧
     parseMarkdown TestRun.parseEnv docOrd = .ok parsedOrd ∧
     (parseMarkdown TestRun.parseEnv docOrdOut).toOption.isSome = true :=
-  ⟨ord_written, ctrl_contract, ord_noStrayCR, ord_frontClosed, parse_ord, by decide⟩
+  ⟨ord_written, ctrl_contract, ord_noStrayCR, parse_ord, by decide⟩
 
 /-- … and for the document whose command ends in an empty continuation line (the former witness) -/
-example : NoStrayCR docTrail ∧ FrontClosed docTrail ∧
+example : NoStrayCR docTrail ∧
     (parseMarkdown TestRun.parseEnv docTrail).toOption.isSome = true ∧
     (parseMarkdown TestRun.parseEnv docTrailOut).toOption.isSome = true := by decide
 
@@ -562,40 +589,108 @@ example : ∃ s', addAll (fun _ => true) (LineParser.State.new false) (number 0 
 /-! ### U4: idempotence of the composition
 
 The full-strength statement (no guard) is false where the open findings
-`C10:not-idempotent-stray-carriage-return`, `C10:not-idempotent-retained-quantified-expectations` and
-the stray-carriage-return witness above say so. -/
+`C10:not-idempotent-stray-carriage-return`, `C10:not-idempotent-retained-quantified-expectations`,
+`C10:config-leading-white-space-changes-configuration` and the stray-carriage-return witness above say so. -/
 
 /-- The second update writes nothing, provided it generates the same texts as the first
 (`C10_idempotent` through the composition; the count of tests is proved to be the same). -/
 theorem C10_run_idempotent_same_texts_partial (isOther : Char → Bool) (content : List Char)
     (runs : List TestRun.Ran) (text : List Char) (results : List Gen.UpdResult)
     (h : updateDocument isOther content runs = .updated text results)
-    (hcr : NoStrayCR content) (hf : FrontClosed content)
+    (hcr : NoStrayCR content)
     (hsame : docGens isOther text runs = docGens isOther content runs) :
     ∃ rs, updateDocument isOther text runs = .unchanged rs :=
-  run_idempotent_of_same_texts h hcr hf hsame
+  run_idempotent_of_same_texts h hcr (frontClosed_of_updated h) hsame
 
 /-- the hypothesis holds for the ordinary document: the second run generates the text the first wrote -/
 example : docGens ctrl docOrdOut [runNew] = docGens ctrl docOrd [runNew] := ord_sameTexts
 
-/-- **Idempotence**: updating the updated document with the same runs writes nothing – under the
-decidable guards named in the header and the one undischarged hypothesis `SameConfigs` (the written
-document is read with the same test configurations).  (The guards `CmdClosed` / `NoContLike` it had before
-fixes 961e96b / cfef990 are dropped.) -/
+/-- **`parseFlow` does not see blanks behind the opening brace**: for EVERY text `t` between the braces of a
+fence line, the text without its leading spaces and tabs deserializes to the same result (a configuration, an
+error, a panic, or "outside the modelled subset"). -/
+theorem C10_flow_blanks_skipped (t : List Char) :
+    Yaml.parseFlow ('{' :: (Yaml.skipWs t ++ ['}'])) = Yaml.parseFlow ('{' :: (t ++ ['}'])) :=
+  Yaml.parseFlow_skipWs t
+
+/-- **The configuration text read back**: the fence line `update` writes for a block (at least three backticks, a
+language `LangOK`, the configuration lines `cfg`) is read by the fence recogniser with the configuration text
+`writtenCfg cfg`: none if `cfg` holds white space only, otherwise its text without the leading white space
+(`trim_start`, Unicode `White_Space`). -/
+theorem C10_config_text_read_back (n : Nat) (hn : 3 ≤ n) (lang : Line) (hl : LangOK lang) (cfg : Numbered) :
+    ∃ config', extractCodeBlockStart (backticks n ++ lang ++ configSuffix cfg) = .ok (some (backticks n, lang, config')) ∧
+      ∀ j, (cfgLines j config').map (·.2) = writtenCfg cfg := by
+  obtain ⟨c, h1, _, h3⟩ := fence_line_reread_cfg n hn lang hl cfg
+  exact ⟨c, by rw [extractCodeBlockStart_eq, h1], h3⟩
+
+/-- … and where the white space dropped is spaces and tabs, the test configuration parsed from it is the one
+parsed from the original text. -/
+theorem C10_config_read_back (cfg cfg' : Numbered) (hw : cfg'.map (·.2) = writtenCfg cfg)
+    (hg : trimStart (joinNumbered cfg) = Yaml.skipWs (joinNumbered cfg)) :
+    TestRun.inlineCfg (some (cfgOf cfg')) = TestRun.inlineCfg (some (cfgOf cfg)) :=
+  inlineCfg_written hw hg
+
+/-- **The written document parses** (the hypothesis "IF the written document parses" of
+`C10_run_same_commands_partial`, discharged under the guards of U4). -/
+theorem C10_run_written_parses_partial (isOther : Char → Bool) (hC : AsciiContract isOther) (content : List Char)
+    (runs : List TestRun.Ran) (text : List Char) (results : List Gen.UpdResult)
+    (h : updateDocument isOther content runs = .updated text results)
+    (hcr : NoStrayCR content) (p : Parsed)
+    (hp : parseMarkdown TestRun.parseEnv content = .ok p)
+    (hcodes : ∀ r ∈ runs, 0 ≤ r.code ∧ r.code ≤ 255)
+    (hq : QuantFree content results) (hcb : CfgBlankLed content) :
+    ∃ p', parseMarkdown TestRun.parseEnv text = .ok p' ∧ p'.tests.map (·.command) = p.tests.map (·.command) := by
+  obtain ⟨p', hp'⟩ := written_parses hC h hcr hp hcodes hq hcb
+  exact ⟨p', hp', run_same_commands_final hC h hcr hp hp'⟩
+
+/-- DEVIATION (finding `C10:config-leading-white-space-changes-configuration`; the guard `CfgBlankLed` cannot be
+dropped): the document ```` ```scrut {<U+00A0>output_stream: stderr} ```` / `$ x` / `a` PASSES on the run that
+prints `a` to STDOUT and `b` to STDERR (the key `<U+00A0>output_stream` is unknown and ignored: STDOUT is
+validated); `update` writes it -- the configuration text loses the no-break space --; the written document is read
+with ANOTHER configuration (`output_stream: stderr`), fails on the same run and is written a second time, with
+the expectation `b`.  Every other guard of `C10_run_idempotent_partial` holds. -/
+theorem C10_run_idempotent_configs_fail_on_witness :
+    AllPass docNbsp [runAB] ∧
+    (∀ isOther, updateDocument isOther docNbsp [runAB] = .updated docNbspOut [.ok]) ∧
+    updateDocument ctrl docNbspOut [runAB] = .updated docNbspOut2 [.malformed [.unmatched 0, .unexpected [0]]] ∧
+    docNbspOut2 ≠ docNbspOut ∧
+    (docTests docNbsp).map (·.map (·.test.cfg.outputStream)) = some [some .stdout] ∧
+    (docTests docNbspOut).map (·.map (·.test.cfg.outputStream)) = some [some .stderr] ∧
+    ¬ CfgBlankLed docNbsp ∧ NoStrayCR docNbsp ∧ QuantFree docNbsp [.ok] ∧
+    (∀ r ∈ [runAB], 0 ≤ r.code ∧ r.code ≤ 255) :=
+  ⟨allPass_nbsp, nbsp_written, nbspOut_written, by decide, by rw [docTests_nbsp]; rfl, by rw [docTests_nbspOut]; rfl,
+    nbsp_not_cfgBlankLed, nbsp_noStrayCR, nbsp_quantFree, sp_codes⟩
+
+/-- **Idempotence**: updating the updated document with the same runs writes nothing – under the decidable
+guards named in the header, all of them about the ORIGINAL document and the runs: no stray carriage return,
+exit codes 0..255, no retained quantified expectation, and the white space in front of every inline
+configuration is spaces and tabs.  (The hypothesis `SameConfigs` about the written document is discharged; the
+guard `FrontClosed` is dropped: `C10_run_front_closed`; the guards `CmdClosed` / `NoContLike` it had before fixes
+961e96b / cfef990 are dropped.) -/
 theorem C10_run_idempotent_partial (isOther : Char → Bool) (hC : AsciiContract isOther) (content : List Char)
     (runs : List TestRun.Ran) (text : List Char) (results : List Gen.UpdResult)
     (h : updateDocument isOther content runs = .updated text results)
-    (hcr : NoStrayCR content) (hf : FrontClosed content) (p : Parsed)
+    (hcr : NoStrayCR content) (p : Parsed)
     (hp : parseMarkdown TestRun.parseEnv content = .ok p)
     (hcodes : ∀ r ∈ runs, 0 ≤ r.code ∧ r.code ≤ 255)
-    (hq : QuantFree content results) (hsc : SameConfigs content text) :
+    (hq : QuantFree content results) (hcb : CfgBlankLed content) :
     ∃ rs, updateDocument isOther text runs = .unchanged rs :=
-  run_idempotent_readback hC h hcr hf hp hcodes hq hsc
+  run_idempotent_final hC h hcr hp hcodes hq hcb
 
 /-- every hypothesis holds for the ordinary document, so its second update writes nothing -/
 example : ∃ rs, updateDocument ctrl docOrdOut [runNew] = .unchanged rs :=
-  C10_run_idempotent_partial ctrl ctrl_contract docOrd [runNew] docOrdOut _ ord_written ord_noStrayCR ord_frontClosed
-    parsedOrd parse_ord ord_codes ord_quantFree ord_sameConfigs
+  C10_run_idempotent_partial ctrl ctrl_contract docOrd [runNew] docOrdOut _ ord_written ord_noStrayCR
+    parsedOrd parse_ord ord_codes ord_quantFree ord_cfgBlankLed
+
+/-- … and for a document whose inline configuration starts with a space, which `update` drops
+(```` ```scrut { output_stream: stderr} ```` is written ```` ```scrut {output_stream: stderr} ````): the guard
+`CfgBlankLed` holds, the second update writes nothing -/
+example : CfgBlankLed docSp ∧ ∃ rs, updateDocument ctrl docNbspOut2 [runAB] = .unchanged rs := by
+  refine ⟨sp_cfgBlankLed, ?_⟩
+  cases hp : parseMarkdown TestRun.parseEnv docSp with
+  | error e => have := parse_sp; rw [hp] at this; cases this
+  | ok p =>
+    exact C10_run_idempotent_partial ctrl ctrl_contract docSp [runAB] docNbspOut2 _ sp_written sp_noStrayCR
+      p hp sp_codes sp_quantFree sp_cfgBlankLed
 
 end Integrated
 
